@@ -101,6 +101,9 @@ WITNESS = [
      {"op": "put", "k": 3, "c": "G"}, {"op": "delr", "lo": ["I", 3], "hi": ["I", 3]}, {"op": "reopen"}],
     [{"op": "put", "k": 1, "c": "A"}, {"op": "put", "k": 2, "c": "B"}, {"op": "put", "k": 3, "c": "A"}, {"op": "put", "k": 4, "c": "B"},
      {"op": "delr", "lo": ["X", 1], "hi": ["X", 4]}, {"op": "reopen"}, {"op": "delr", "lo": ["I", 1], "hi": ["I", 4]}, {"op": "reopen"}],
+    # a content larger than any internal buffer or read step (300 000 bytes), shared, overwritten, removed, re-put
+    [{"op": "put", "k": 2, "c": "H"}, {"op": "put", "k": 3, "c": "H"}, {"op": "put", "k": 2, "c": "G"}, {"op": "reopen"},
+     {"op": "delr", "lo": ["I", 3], "hi": ["I", 3]}, {"op": "put", "k": 1, "c": "H"}, {"op": "abort", "k": 1, "c": "H"}, {"op": "reopen"}],
 ]
 
 
